@@ -83,7 +83,11 @@ pub mod sync {
         pub uninterp spec fn sender_id<T>(s: &Sender<T>) -> int;
         pub uninterp spec fn receiver_id<T>(r: &Receiver<T>) -> int;
         /// delivers to its paired receiver, or returns the value if that was dropped
-        impl<T> Sender<T> { #[verifier::external_body] pub fn send(self, t: T) -> Result<(), T> requires crate::sync::mpsc::chan_item_ok(&t) { unimplemented!() } }
+        impl<T> Sender<T> {
+            #[verifier::external_body] pub fn send(self, t: T) -> Result<(), T> requires crate::sync::mpsc::chan_item_ok(&t) { unimplemented!() }
+            /// whether the paired receiver is gone (may change at any time: nothing is known about the answer)
+            #[verifier::external_body] pub fn is_closed(&self) -> bool { unimplemented!() }
+        }
         /// yields the value sent by the paired sender, `Err` if the sender was dropped without sending
         impl<T> VxFuture for Receiver<T> {
             type Output = Result<T, error::RecvError>;
